@@ -90,6 +90,11 @@ def geometry(draw, max_wfs=4, max_n=7, max_layers=3):
     hmax = min([a for a in alts if a] + [40e3]) * 0.45
     layer_alts = sorted(draw(st.sampled_from([0.0, 0.0, 500.0, 4000.0, 9000.0, 20000.0])) for _ in range(n_layers))
     layer_alts = [min(h, hmax) for h in layer_alts]
+    if any(alts) and draw(st.integers(0, 3)) == 0:
+        # Rayleigh beacons at 10 - 25 km look through only part of the atmosphere: a layer at or above the lowest beacon
+        # (the customary 0 / 10 / 20 km grid has one AT a 10 or 20 km beacon) contributes nothing to that sensor's blocks
+        hb = min(a for a in alts if a)
+        layer_alts = sorted(layer_alts[:-1] + [hb * draw(st.sampled_from([1.0, 1.0, 1.001, 1.5, 2.0]))])
     r0s = [draw(gen.logfloat(0.05, 2.0)) for _ in range(n_layers)]
     L0s = [draw(st.one_of(gen.logfloat(2.0, 200.0), gen.logfloat(200.0, 1e5))) for _ in range(n_layers)]
     arg_types = draw(st.sampled_from(["lists", "lists", "arrays"]))
@@ -140,6 +145,8 @@ def classes_of(cfg):
     offaxis = any(any(p) for p in cfg["gs_positions"]) and any(h > 0 for h in cfg["layer_altitudes"])
     cl.append("offaxis_at_altitude" if offaxis else "no_parallax")
     cl.append("args_" + cfg.get("arg_types", "lists"))
+    if any(H and h >= H for H in cfg["gs_altitudes"] for h in cfg["layer_altitudes"][:cfg["n_layers"]]):
+        cl.append("layer_at_or_above_a_beacon")
     cl.append("wavelengths_SI" if max(cfg["wfs_wavelengths"]) < 1e-3 else "wavelengths_in_microns_or_nm")
     if all(isinstance(d, int) for d in cfg["subap_diameters"]):
         cl.append("integer_subap_diameters")
@@ -190,8 +197,12 @@ def cov_body(ctx, cfg):
     if judged.all():
         ctx.equal(got, got.T, "slope covariance matrix is not exactly symmetric")
         ev = np.linalg.eigvalsh(0.5 * (g + g.T))
-        ctx.residual("-lambda_min/lambda_max", max(0.0, -float(ev[0])) / float(ev[-1]), 1e-5)
-        ctx.require(ev[0] >= -1e-5 * ev[-1], "slope covariance matrix not positive semi-definite: lambda_min/lambda_max = %.3g" % (ev[0] / ev[-1]))
+        if ev[-1] > 0:
+            ctx.residual("-lambda_min/lambda_max", max(0.0, -float(ev[0])) / float(ev[-1]), 1e-5)
+            ctx.require(ev[0] >= -1e-5 * ev[-1], "slope covariance matrix not positive semi-definite: lambda_min/lambda_max = %.3g" % (ev[0] / ev[-1]))
+        else:
+            ctx.classes["all_zero_matrix (every layer at or above every beacon)"] += 1
+            ctx.require(not np.any(g), "slope covariance matrix has no positive eigenvalue but is not zero")
 
 
 # ------------------------------------------------------------------ metamorphic relations (independent of the oracle)
